@@ -144,15 +144,19 @@ def worker(ctx):
     shutil.rmtree(logdir, ignore_errors=True)
 
 
-def run_all(env, stats, budget_s=None):
-    """Run the three shards; merges counters and violations into `stats`, returns a summary for the evidence."""
+def run_all(env, stats, budget_s=None, quick=False):
+    """Run the three shards; merges counters and violations into `stats`, returns a summary for the evidence.
+
+    quick=True (the quick tier): the valgrind shard only, a few hundred cases - the engine that needs no second build."""
     summary = {}
     release = env.driver
     plan = []
     if shutil.which("valgrind"):
-        plan.append(("valgrind", {"release": release, "units_per_worker": 300}, 900))
+        plan.append(("valgrind", {"release": release, "units_per_worker": 24 if quick else 300}, 75 if quick else 900))
     else:
         summary["valgrind"] = "not installed"
+    if quick:
+        return _run_plan(env, stats, plan, summary, budget_s)
     asan, msg = build_asan()
     if asan:
         plan.append(("asan", {"asan": asan, "units_per_worker": 12000}, 900))
@@ -165,6 +169,11 @@ def run_all(env, stats, budget_s=None):
     else:
         summary["miri"] = "inconclusive: build failed: " + msg[-300:]
         stats.inconc("miri_build_failed")
+    return _run_plan(env, stats, plan, summary, budget_s)
+
+
+def _run_plan(env, stats, plan, summary, budget_s=None):
+    release = env.driver
     for tool, params, budget in plan:
         params["tool"] = tool
         t = time.time()
